@@ -7,6 +7,7 @@ use agdb::DbKeyOrder;
 use agdb::DbMemory;
 use agdb::QueryCondition;
 use agdb::QueryConditionData;
+use agdb::QueryConditionModifier;
 use agdb::QueryId;
 use agdb::SearchQuery;
 use agdb::SearchQueryAlgorithm;
@@ -557,8 +558,15 @@ impl CaseEngine for C16 {
                     (sq(SearchQueryAlgorithm::BreadthFirst, a, b), "path")
                 }
             };
-            if g.rng.chance(1, 3) {
-                q.conditions = g.conditions(&m, 1, false, false);
+            if g.rng.chance(1, 2) {
+                // traversal control (beyond / not_beyond / distance) included: the oracle is relative to the
+                // implementation's own unsliced result, and an element that is selected but stops the
+                // traversal must do so inside a skipped offset prefix as well
+                let traversal = algname != "elements" && algname != "path";
+                q.conditions = g.conditions(&m, 1, true, traversal);
+                if q.conditions.iter().any(|c| matches!(c.modifier, QueryConditionModifier::Beyond | QueryConditionModifier::NotBeyond) || matches!(c.data, QueryConditionData::Distance(_))) {
+                    rep.count("searches_with_traversal_control_conditions");
+                }
             }
             let base = q.clone();
             let r = match run_search(&db, &base) {
